@@ -79,9 +79,13 @@ def token_factory_rules(ck, C):
         inc = T.calls(tf, name="increment_sub_id")
         st_next = [(i, st) for i, j, st in T.stores_to_field(tf, "next_token")]
         ret = [(i, st) for i, j, st in tf.statements() if st["s"] == "assign" and st["pl"]["l"] == 0 and not tf.is_cleanup(i)]
-        ok_ret = any(st["rv"]["r"] == "agg" and T.path_has(tf, st["rv"]["fields"][0], ".next_token") and not T.resolves_to_call(tf, st["rv"]["fields"][0], [c.bb for c in inc]) for i, st in ret)
-        ok_store = bool(inc) and any(T.resolves_to_call(tf, st["rv"]["o"], [c.bb for c in inc]) for i, st in st_next if st["rv"]["r"] == "use") and all(T.path_has(tf, c.args[0], ".next_token") for c in inc)
-        bad = T.t2_all_exits(tf, [0], [i for i, st in st_next]) if st_next else [0]
+        # the same exchange spelled mem::replace(&mut self.next_token, successor): it stores its second argument and
+        # hands back the old value
+        swaps = [c for c in T.calls(tf, name="replace", path="std::mem::replace") if not tf.is_cleanup(c.bb) and T.path_has(tf, c.args[0], ".next_token")]
+        ok_ret = any(st["rv"]["r"] == "agg" and st["rv"]["fields"] and ((T.path_has(tf, st["rv"]["fields"][0], ".next_token") and not T.resolves_to_call(tf, st["rv"]["fields"][0], [c.bb for c in inc])) or T.resolves_to_call(tf, st["rv"]["fields"][0], [c.bb for c in swaps])) for i, st in ret)
+        ok_store = bool(inc) and (any(T.resolves_to_call(tf, st["rv"]["o"], [c.bb for c in inc]) for i, st in st_next if st["rv"]["r"] == "use") or any(T.resolves_to_call(tf, c.args[1], [x.bb for x in inc]) for c in swaps)) and all(T.path_has(tf, c.args[0], ".next_token") for c in inc)
+        store_sites = [i for i, st in st_next] + [c.bb for c in swaps]
+        bad = T.t2_all_exits(tf, [0], store_sites) if store_sites else [0]
         ck.verdict(ok_ret and ok_store and bad is None, C, "T6-provenance", tf, "returns-current/stores-successor", "token() returns the current sub-token and stores increment_sub_id() of it on every path", "TokenFactory::token does not return the current token and advance to its successor (two sub-sources would share a token)", site=tf.where())
     tfn = ck.opt_body("TokenFactory::new")
     if tfn is not None:
@@ -274,6 +278,9 @@ def run(ck):
                 ck.verdict(T.path_has(ve, c.args[0], ".token"), "4", "T6-provenance", ve, "increment_version(slot.token)", "the bumped value is the slot's own token", "increment_version is not applied to the slot's token", site=ve.where(c.bb))
 
     slots_never_removed(ck, "4")
+    # the bump itself: generation + 1 modulo 2^16, id and sub-id untouched (decided bit-precisely by C20.4): a bump
+    # that wraps early or carries into the id gives a reused slot the identity of another token
+    common.import_results(ck, __import__("props.C20", fromlist=["x"]), "4", "increment_version", "4")
     rd = ck.opt_body("LoopHandle::register_dispatcher")
     if rd is None:
         ck.anchor_missing("4", "T6-provenance", "LoopHandle::register_dispatcher")
@@ -338,6 +345,10 @@ def run(ck):
         direct = T.calls(b2, name=("call_mut", "call", "call_once"), self_kind=("param",))
         ck.verdict(not direct, "6", "T3-must-precede", b2, "callback-only-inside-inner-callback", "the user callback is only invoked from the closure handed to the inner source", "the wrapper invokes the user callback outside the closure it hands to its inner source: the inner source's token guard no longer protects it (a disabled / foreign event reaches the callback)", site=b2.where(direct[0].bb) if direct else b2.where())
     import_n = common.import_results(ck, __import__("props.C05", fromlist=["x"]), "5", "Timer", "5")
+    common.import_results(ck, __import__("props.C05", fromlist=["x"]), "6", "Timer", "5")
     ck.floor("6", "wrapper process_events forwarding sites", n, 8 if ck.has("executor") and ck.has("stream") and ck.has("signals") else 5)
 
     token_factory_rules(ck, "7")
+    # composite wrappers: TransientSource forwards events only from its current, kept child, and a child that asked
+    # to be disabled is not re-enabled behind the user's back (E3, shared with C18 / C07)
+    common.import_e3(ck, "8", lambda inst: "asked to be disabled" in inst or "forwarded" in inst)
